@@ -109,8 +109,12 @@ impl BaseElement {
         let s_lo = s as u64;
         let z = (s_hi << 32) - s_hi;
         let (res, over) = s_lo.overflowing_add(z);
+        let res = res.wrapping_add(0u32.wrapping_sub(over as u32) as u64);
 
-        BaseElement::from_mont(res.wrapping_add(0u32.wrapping_sub(over as u32) as u64))
+        // the result is smaller than 2^64 but may still be greater than or equal to M: bring
+        // it into the canonical range
+        let (reduced, under) = res.overflowing_sub(M);
+        BaseElement::from_mont(reduced.wrapping_add(M * (under as u64)))
     }
 }
 
